@@ -147,6 +147,29 @@ func (valSet *ValidatorSet) Proposer() (proposer *Validator) {
 	return valSet.proposer.Copy()
 }
 
+// ProposerAddress returns the address of the proposer selected by the last
+// IncrementAccum (nil if none is cached). The selection is not derivable from
+// the accums alone, so whoever persists a ValidatorSet has to persist it too.
+func (valSet *ValidatorSet) ProposerAddress() []byte {
+	if valSet == nil || valSet.proposer == nil {
+		return nil
+	}
+	return valSet.proposer.Address
+}
+
+// SetProposerByAddress restores the selected proposer of a set that was
+// rebuilt from persisted bytes. Returns false if no such validator exists.
+func (valSet *ValidatorSet) SetProposerByAddress(address []byte) bool {
+	idx := sort.Search(len(valSet.Validators), func(i int) bool {
+		return bytes.Compare(address, valSet.Validators[i].Address) <= 0
+	})
+	if idx == len(valSet.Validators) || !bytes.Equal(valSet.Validators[idx].Address, address) {
+		return false
+	}
+	valSet.proposer = valSet.Validators[idx]
+	return true
+}
+
 func (valSet *ValidatorSet) Hash() []byte {
 	if len(valSet.Validators) == 0 {
 		return nil
